@@ -53,6 +53,10 @@ Expect ==
 NewFlags ==
     IF \E x \in Wallets : status[x] = "importing" /\ cursor'[x] < cursor[x] THEN {"import-reorg"} ELSE {}
 
+\* the wallet state after a block step is a block boundary whether or not more tips are queued:
+\* what a query that answers "as of this boundary" must report (C17)
+Boundary == [synced |-> Len(wchain'), views |-> [w \in Ready' |-> View(CC(wchain)', pend', w)]]
+
 Log(r) == /\ hist' = Append(hist, r @@ [exp |-> Expect])
           /\ flags' = flags \cup NewFlags
 
@@ -126,7 +130,7 @@ GenNext ==
        \/ /\ Crashes /\ Restart /\ Log([a |-> "Restart"])
        \/ /\ Crashes /\ \E k \in Pick(1..CatchUpSteps(wchain)) :
                          RestartCrash(k) /\ Log([a |-> "RestartCrash", k |-> k])
-       \/ HandleBlock /\ Log([a |-> "HandleBlock", b |-> Head(ntfB)])
+       \/ HandleBlock /\ Log([a |-> "HandleBlock", b |-> Head(ntfB), bnd |-> Boundary])
        \/ HandleTx /\ Log([a |-> "HandleTx", t |-> Head(ntfT), acc |-> TxAccepted(Head(ntfT)),
                             why |-> AcceptedHow(Head(ntfT))])
     /\ Script = <<>> => CanFinish
